@@ -205,7 +205,9 @@ func byteCorpus(x *mon.Ctx) []bcase {
 	}
 
 	// well-formed unsigned pattern quotes with extreme lengths
-	for i, sh := range [][3]int{{0, 0, 0}, {1, 1, 1}, {65535, 0, 0}, {0, 8192, 0}, {65535, 8192, 3000}, {32, 3000, 64}, {2, 7, 0}} {
+	for i, sh := range [][3]int{{0, 0, 0}, {1, 1, 1}, {65535, 0, 0}, {0, 8192, 0}, {65535, 8192, 3000}, {32, 3000, 64}, {2, 7, 0},
+		// certificate data whose length needs more than 16 bits (its size field has 32), alone and together with maximal auth data
+		{0, 65535, 0}, {0, 65536, 0}, {32, 65537, 5}, {65535, 70000, 0}, {65534, 65536, 1}, {0, 131072, 0}, {7, 1<<20 + 3, 0}, {0, 1 << 24, 0}} {
 		add("pattern", fmt.Sprintf("auth%d-chain%d-extra%d", sh[0], sh[1], sh[2]), patternParts(i, sh[0], sh[1], sh[2]).Bytes())
 	}
 	// degenerate inputs
